@@ -604,6 +604,17 @@ def run(R):
             one_stack(R, B, vm, chunk, {'stack': 'integers around powers of two', 'first': str(chunk[0]), 'last': str(chunk[-1])})
             R.case(mon.fp('pow2', i))
             R.count('power_of_two_integers', len(chunk))
+    # control data of continuations: every combination of nargs / stack / save / cp being absent, zero-like and non-zero, for both kinds that carry it
+    if R.shard == 0:
+        import itertools
+        quit_ = ('cont', 'vmc_quit', {'exit_code': 0})
+        for kind in ('vmc_std', 'vmc_envelope'):
+            for nargs, stack, save, cp in itertools.product([None, 0, 1, 8191], [None, [], [1, None]], [None, {0: 5}, {3: None, 15: 2 ** 70}], [None, 0, -1, 32767]):
+                cd = {'nargs': nargs, 'stack': stack, 'save': save, 'cp': cp}
+                f = {'cdata': cd, 'code': rc.RC('1011', [rc.RC('1')])} if kind == 'vmc_std' else {'cdata': cd, 'next': quit_}
+                one_stack(R, B, vm, [('cont', kind, f), 7], {'stack': f'{kind} with control data', 'cdata': {k: repr(v) for k, v in cd.items()}})
+                R.count('control_data_combinations')
+                R.case(mon.fp('cdata', kind, repr(cd)))
     # tuples of every length 0..40 and 250..255 (vm_tuple_nil / vm_tuple_tcons chaining, the single-entry and two-entry heads)
     if R.shard == 0:
         for n in list(range(41)) + list(range(250, 256)):
@@ -611,6 +622,8 @@ def run(R):
             R.cover('tuple_lengths', n)
             R.case(mon.fp('tuplen', n))
     R.floor('double_serialisations', 50)
+    if R.nshards == 1:
+        R.floor('control_data_combinations', 288)
     R.floor('history_serialisations', 100)
     R.floor('history_ops', 4, 'set')
     R.floor('kinds', 20, 'set')
